@@ -268,7 +268,7 @@ def r17_7(ctx, layers):
                         continue  # infeasible under the established invariant
                     ev = [e for e in p.events if e[0] == "call" and e[1].rsplit("::", 1)[1] == "match_value"]
                     for e in p.events:
-                        if e[0] == "call" and e[1].endswith("BTreeMap::insert") and e[2][0][0] == "local" and "execute" in (f.local_name(e[2][0][1]) or ""):
+                        if e[0] == "call" and e[1].endswith("BTreeMap::insert") and e[2][0][0] in ("local", "param", "havoc"):
                             n_ins += 1
                             val = e[2][2]
                             if not ev:
